@@ -7,6 +7,7 @@ import (
 	"fmt"
 	"regexp"
 
+	"github.com/microsoft/yardl/tooling/internal/formatting"
 	"github.com/microsoft/yardl/tooling/internal/validation"
 )
 
@@ -103,6 +104,9 @@ func validateRecordFieldNames(env *Environment, errorSink *validation.ErrorSink)
 		}
 
 		fields := make(map[string]bool)
+		// Generated code uses the snake_case form of a name: names that only differ in
+		// capitalization ('fooBar' and 'fooBAR') would become the same member.
+		snakeCased := make(map[string]string)
 
 		for _, field := range record.Fields {
 			if !memberNameRegex.MatchString(field.Name) {
@@ -111,9 +115,12 @@ func validateRecordFieldNames(env *Environment, errorSink *validation.ErrorSink)
 
 			if _, found := fields[field.Name]; found {
 				errorSink.Add(validationError(field, "a field with the name '%s' is already defined on the record '%s'", field.Name, record.Name))
+			} else if other, found := snakeCased[formatting.ToSnakeCase(field.Name)]; found {
+				errorSink.Add(validationError(field, "the field names '%s' and '%s' of the record '%s' are not distinct when converted to snake_case in generated code", other, field.Name, record.Name))
 			}
 
 			fields[field.Name] = true
+			snakeCased[formatting.ToSnakeCase(field.Name)] = field.Name
 		}
 
 		for _, field := range record.ComputedFields {
@@ -123,9 +130,12 @@ func validateRecordFieldNames(env *Environment, errorSink *validation.ErrorSink)
 
 			if _, found := fields[field.Name]; found {
 				errorSink.Add(validationError(field, "a field or computed field with the name '%s' is already defined on the record '%s'", field.Name, record.Name))
+			} else if other, found := snakeCased[formatting.ToSnakeCase(field.Name)]; found {
+				errorSink.Add(validationError(field, "the field names '%s' and '%s' of the record '%s' are not distinct when converted to snake_case in generated code", other, field.Name, record.Name))
 			}
 
 			fields[field.Name] = true
+			snakeCased[formatting.ToSnakeCase(field.Name)] = field.Name
 		}
 	})
 
@@ -141,6 +151,7 @@ func validateProtocolSequenceNames(env *Environment, errorSink *validation.Error
 		}
 
 		steps := make(map[string]bool)
+		snakeCased := make(map[string]string)
 
 		for _, step := range protocol.Sequence {
 			if !memberNameRegex.MatchString(step.Name) {
@@ -149,9 +160,12 @@ func validateProtocolSequenceNames(env *Environment, errorSink *validation.Error
 
 			if _, found := steps[step.Name]; found {
 				errorSink.Add(validationError(step, "a sequence step with the name '%s' is already defined on the protocol '%s'", step.Name, protocol.Name))
+			} else if other, found := snakeCased[formatting.ToSnakeCase(step.Name)]; found {
+				errorSink.Add(validationError(step, "the step names '%s' and '%s' of the protocol '%s' are not distinct when converted to snake_case in generated code", other, step.Name, protocol.Name))
 			}
 
 			steps[step.Name] = true
+			snakeCased[formatting.ToSnakeCase(step.Name)] = step.Name
 		}
 	})
 
